@@ -102,7 +102,13 @@ def run_shard(ctx):
             del churn, x_
             ctx.count("value_churn_before_duplicate")
         reg_before = {k: v for k, v in ((o.id, o) for o in orig_objs.values()) if ASTNode.get_any(k) is v}
-        d = root.duplicate()
+        try:
+            d = root.duplicate()
+        except Exception as e:  # noqa: BLE001
+            ctx.evaluations += 1
+            ctx.violation("duplicate-raised", f"duplicate() of a valid tree raised {type(e).__name__}: {e}"[:300], {"tree": spec_json(s)})
+            root.detach()
+            continue
         ctx.evaluations += 1
         if n_positions >= 2:
             ctx.fp((fp, "duplicate"))
